@@ -10831,3 +10831,525 @@ func ruleOnlyUncompressedPassesInput(r *Run) {
 	}
 	r.check(n >= 1, "SerializeData:envelope-calls", fmt.Sprintf("%d", n), "none found: rule needs review", w.fpos(f))
 }
+
+// ---------------------------------------------------------------------------------------------
+// Round j: R17.20, R14.19, R20.73, R16.31, R13.41–R13.42, R19.17, R6.25–R6.26, R12.24
+
+func init() {
+	register(ruleDef{ID: "R17.20", Prop: "C17", Tier: "quick", Floor: 1,
+		Title: "a streamed block starts behind its envelope: in imageblk.Data.SendSerializedBlock the offset at which the stored value is cut is the constant 1 or the constant 5, chosen by a test of the stored checksum kind (a value stored with CRC32 carries four checksum bytes between the format byte and the payload)",
+		Fn:    ruleStreamedBlockSkipsEnvelope})
+	register(ruleDef{ID: "R14.19", Prop: "C14", Tier: "quick", Floor: 2,
+		Title: "every down-res pass of labelmap runs under the voxel mutex: each call of downres.Mutation.Execute in the labelmap package is made with the instance's voxelMu held by the calling function (a function that stops taking the mutex altogether is the same defect as one that releases it early)",
+		Fn:    ruleEveryExecuteUnderVoxelMutex})
+	register(ruleDef{ID: "R20.73", Prop: "C20", Tier: "quick", Floor: 3,
+		Title: "every counted job is handed on or signed off: in the datatype packages, behind each Add(1) on a local WaitGroup every path to the next pass of its loop (or, outside loops, to the Wait) passes a call that is given the group, a go statement whose function signs off on it, or a Done() on it (a skipped job that was counted and never signed off leaves the request waiting for ever, with the locks it holds)",
+		Fn:    ruleCountedJobHandedOnOrSignedOff})
+	register(ruleDef{ID: "R16.31", Prop: "C16", Tier: "quick", Floor: 1,
+		Title: "an in-memory query is answered from the records: in neuronjson.Data.queryInMemory every success return lies behind the scan of the head database's records (a shortcut that answers from the field table alone drops the matches of the other alternatives of an OR query)",
+		Fn:    ruleQueryAnsweredFromRecords})
+	register(ruleDef{ID: "R13.41", Prop: "C13", Tier: "quick", Floor: 1,
+		Title: "tag keys are terminated: annotation.NewTagTKey hands storage.NewTKey the tag's bytes with a zero byte appended (versions of a key are found by byte prefix: without the terminator the key of tag \"Syn\" is a prefix of the key of \"Syn1\")",
+		Fn:    ruleTagKeyTerminated})
+	register(ruleDef{ID: "R6.25", Prop: "C06", Tier: "quick", Floor: 1, Title: "(= R13.41) annotation tag keys end with a terminator byte", Fn: ruleTagKeyTerminated})
+	register(ruleDef{ID: "R13.42", Prop: "C13", Tier: "quick", Floor: 1,
+		Title: "a region query returns only elements inside the region: in annotation.Data.GetRegionSynapses every append to the result lies behind the true edge of the VoxelWithin test of that element",
+		Fn:    ruleRegionQueryTestsEveryElement})
+	register(ruleDef{ID: "R19.17", Prop: "C19", Tier: "quick", Floor: 5,
+		Title: "a copy never takes over its source's identity: no CopyPropertiesFrom of a datatype stores into an embedded instance pointer of the receiver (the embedded *Data carries the instance id, name and data UUID: sharing it makes the copy read and write the source's keys)",
+		Fn:    ruleCopyKeepsOwnIdentity})
+	register(ruleDef{ID: "R6.27", Prop: "C06", Tier: "quick", Floor: 5, Title: "(= R19.17) a copied instance keeps its own instance id", Fn: ruleCopyKeepsOwnIdentity})
+	register(ruleDef{ID: "R6.26", Prop: "C06", Tier: "quick", Floor: 3,
+		Title: "the parsers of a data key agree on its minimal length: in storage/context.go every refusal 'len(key) below a constant' of a function that reads the version, client or instance ids from a data key starts at the same length (a parser that refuses class-only keys drops the label counters, schemas and extents from version-limited migrations)",
+		Fn:    ruleKeyParsersAgreeOnLength})
+	register(ruleDef{ID: "R12.24", Prop: "C12", Tier: "quick", Floor: 3,
+		Title: "identifier counters never move backwards: no store into repoManager.instanceID, repoID or versionID has a subtraction in its value (an id 'given back' after a refused creation may already have a successor in use)",
+		Fn:    ruleCountersNeverDecrease})
+}
+
+func ruleStreamedBlockSkipsEnvelope(r *Run) {
+	w := r.W
+	f := w.method("datatype/imageblk", "Data", "SendSerializedBlock")
+	if f == nil || len(f.Blocks) == 0 {
+		r.undecided("imageblk.Data.SendSerializedBlock", "anchor not found")
+		return
+	}
+	var v *ssa.Parameter
+	for _, p := range f.Params {
+		if p.Name() == "v" {
+			v = p
+		}
+	}
+	n := 0
+	for _, b := range f.Blocks {
+		for _, in := range b.Instrs {
+			sl, ok := in.(*ssa.Slice)
+			if !ok || v == nil || sl.X != ssa.Value(v) || sl.Low == nil {
+				continue
+			}
+			n++
+			consts := map[int64]bool{}
+			other := false
+			var edges []ssa.Value
+			if phi, ok := stripConv(sl.Low).(*ssa.Phi); ok {
+				edges = phi.Edges
+			} else {
+				edges = []ssa.Value{sl.Low}
+			}
+			for _, e := range edges {
+				if k, ok := constIntExpr(e); ok {
+					consts[k] = true
+				} else {
+					other = true
+				}
+			}
+			r.check(!other && len(consts) == 2 && consts[1] && consts[5], fmt.Sprintf("SendSerializedBlock:payload-slice#%d:offset-1-or-5", n), "the offset is 1 or 5",
+				"the offset at which the stored value is cut for streaming is not the choice between 1 (format byte) and 5 (format byte and CRC32): blocks of an instance created with a checksum are streamed with the checksum bytes in front of, or cut out of, their payload", w.pos(sl.Pos()))
+		}
+	}
+	r.check(n >= 1, "SendSerializedBlock:payload-slices", fmt.Sprintf("%d", n), "none found: rule needs review", w.fpos(f))
+}
+
+func ruleEveryExecuteUnderVoxelMutex(r *Run) {
+	w := r.W
+	n := 0
+	for _, f := range w.RepoFuncs {
+		if len(f.Blocks) == 0 || relPkg(pkgPathOf(f)) != "datatype/labelmap" || isTestFunc(w, f) || f.Parent() != nil {
+			continue
+		}
+		k := 0
+		for _, c := range calls(f) {
+			if _, isDefer := c.(*ssa.Defer); isDefer {
+				continue
+			}
+			cal := staticCallee(c)
+			if cal == nil || cal.Name() != "Execute" || relPkg(pkgPathOf(cal)) != "datatype/common/downres" {
+				continue
+			}
+			n++
+			k++
+			held, _ := heldAt(f, c, "voxelMu", true)
+			construct := fmt.Sprintf("%s:Execute#%d:voxelMu-held", fname(f), k)
+			if reason, exc := r.exceptionFor("R14.19", construct); exc {
+				r.check(true, construct, "exception: "+reason, "", w.pos(c.Pos()))
+				continue
+			}
+			r.check(held, construct, "the pass runs with the voxel mutex held by this function",
+				"a down-res pass is run by a function that does not hold the instance's voxel mutex: the pass read-modify-writes parent blocks without a lock, and two requests on sibling blocks lose each other's octants at every lower level", w.pos(c.Pos()))
+		}
+	}
+	r.check(n >= 2, "labelmap:downres-passes", fmt.Sprintf("%d", n), "too few found: rule needs review", "-")
+}
+
+func ruleCountedJobHandedOnOrSignedOff(r *Run) {
+	w := r.W
+	n := 0
+	for _, f := range w.RepoFuncs {
+		if len(f.Blocks) == 0 || isTestFunc(w, f) || !strings.HasPrefix(relPkg(pkgPathOf(f)), "datatype/") {
+			continue
+		}
+		loops := naturalLoops(f)
+		isWGCall := func(c ssa.CallInstruction, name string) (ssa.Value, bool) {
+			callee := staticCallee(c)
+			if callee == nil || callee.Name() != name || callee.Pkg == nil || callee.Pkg.Pkg.Path() != "sync" || len(c.Common().Args) == 0 {
+				return nil, false
+			}
+			if !strings.Contains(c.Common().Args[0].Type().String(), "sync.WaitGroup") {
+				return nil, false
+			}
+			return captureRoot(c.Common().Args[0]), true
+		}
+		k := 0
+		for _, c := range calls(f) {
+			root, ok := isWGCall(c, "Add")
+			if !ok || root.Parent() != f {
+				continue
+			}
+			if _, isAlloc := root.(*ssa.Alloc); !isAlloc {
+				continue // a group received from the caller: the caller's business
+			}
+			one, isK := constInt(c.Common().Args[1])
+			if isK && one != 1 {
+				continue
+			}
+			h, set, _ := innermostLoop(f, c.Block())
+			bulk := false
+			if !isK {
+				// Add(n) for the n passes of the loop that follows: each pass of that loop settles one job
+				var best *ssa.BasicBlock
+				for h2, s2 := range loops {
+					if s2[c.Block()] || !c.Block().Dominates(h2) {
+						continue
+					}
+					if set != nil && !set[h2] {
+						continue
+					}
+					// outermost among the candidates nested in each other, first in block order otherwise
+					if best == nil || (loops[best][h2] == false && h2.Index < best.Index) || s2[best] {
+						best = h2
+					}
+				}
+				if best == nil {
+					continue
+				}
+				h, set, bulk = best, loops[best], true
+			}
+			if set == nil {
+				continue
+			}
+			// handed on / signed off
+			settled := func(x ssa.Instruction) bool {
+				// an item sent on to a consumer carries its sign-off with it (per-item drains, R20.68)
+				if _, isSend := x.(*ssa.Send); isSend {
+					return true
+				}
+				c2, ok := x.(ssa.CallInstruction)
+				if !ok {
+					return false
+				}
+				if rt, ok := isWGCall(c2, "Done"); ok && rt == root {
+					return true
+				}
+				// the group (its address) is an argument
+				for _, a := range c2.Common().Args {
+					if captureRoot(a) == root && a != c2.Common().Args[0] || (captureRoot(a) == root && staticCallee(c2) != nil && staticCallee(c2).Pkg != nil && staticCallee(c2).Pkg.Pkg.Path() != "sync") {
+						return true
+					}
+				}
+				// a function literal that signs off on it (go func(){ …; wg.Done() }() or a callback handed to a call)
+				var lits []*ssa.Function
+				if mc, ok := c2.Common().Value.(*ssa.MakeClosure); ok {
+					if fn, ok := mc.Fn.(*ssa.Function); ok {
+						lits = append(lits, fn)
+					}
+				}
+				for _, a := range c2.Common().Args {
+					if mc, ok := a.(*ssa.MakeClosure); ok {
+						if fn, ok := mc.Fn.(*ssa.Function); ok {
+							lits = append(lits, fn)
+						}
+					}
+				}
+				for _, fn := range lits {
+					for _, g := range closureTree(fn) {
+						for _, gb := range g.Blocks {
+							for _, gi := range gb.Instrs {
+								if _, isSend := gi.(*ssa.Send); isSend {
+									return true // the literal hands its result to a consumer, which signs off per item
+								}
+							}
+						}
+						for _, c3 := range calls(g) {
+							if rt, ok := isWGCall(c3, "Done"); ok && rt == root {
+								return true
+							}
+							for _, a := range c3.Common().Args {
+								if captureRoot(a) == root {
+									return true
+								}
+							}
+						}
+					}
+				}
+				return false
+			}
+			n++
+			k++
+			_ = loops
+			var pth []ssa.Instruction
+			if bulk {
+				for _, sb := range h.Succs {
+					if !set[sb] || len(sb.Instrs) == 0 || pth != nil {
+						continue
+					}
+					first := sb.Instrs[0]
+					if settled(first) {
+						continue
+					}
+					pth = findPath(f, first, settled, func(x ssa.Instruction) bool { return x == h.Instrs[0] }, func(bb *ssa.BasicBlock, i int) bool { return set[bb.Succs[i]] })
+				}
+			} else {
+				pth = findPath(f, c, settled, func(x ssa.Instruction) bool { return x == h.Instrs[0] }, func(bb *ssa.BasicBlock, i int) bool { return set[bb.Succs[i]] })
+			}
+			gname := root.Name()
+			if al, ok := root.(*ssa.Alloc); ok && al.Comment != "" {
+				gname = al.Comment
+			}
+			r.check(pth == nil, fmt.Sprintf("%s:%s:Add#%d:handed-on-or-signed-off", fname(f), gname, k), "every way to the next pass hands the job on or signs it off",
+				"behind an Add(1) a pass of the loop can go round without the job being handed to anything that signs off and without a Done(): the Wait that follows never returns, and the request keeps the locks it holds", w.pos(c.Pos()), w.renderPath(pth)...)
+		}
+	}
+	r.check(n >= 3, "datatype:counted-jobs-in-loops", fmt.Sprintf("%d", n), "too few found: rule needs review", "-")
+}
+
+func ruleQueryAnsweredFromRecords(r *Run) {
+	w := r.W
+	f := w.method("datatype/neuronjson", "Data", "queryInMemory")
+	if f == nil || len(f.Blocks) == 0 {
+		r.undecided("neuronjson.Data.queryInMemory", "anchor not found")
+		return
+	}
+	// the scan: the loop that calls queryMatch / walks mdb.data or mdb.ids
+	var scanHeads []ssa.Instruction
+	for h, set := range naturalLoops(f) {
+		holds := false
+		for b := range set {
+			for _, in := range b.Instrs {
+				if c, ok := in.(ssa.CallInstruction); ok {
+					if callee := staticCallee(c); callee != nil && callee.Name() == "queryMatch" {
+						holds = true
+					}
+				}
+			}
+		}
+		if holds {
+			scanHeads = append(scanHeads, h.Instrs[0])
+		}
+	}
+	if len(scanHeads) == 0 {
+		r.violation("queryInMemory:scan", "no loop that matches the query against the records was found", w.fpos(f))
+		return
+	}
+	isScan := func(x ssa.Instruction) bool {
+		for _, s := range scanHeads {
+			if x == s {
+				return true
+			}
+		}
+		return false
+	}
+	pth := findPath(f, nil, isScan, successExit, nil)
+	r.check(pth == nil, "queryInMemory:success-behind-the-scan", "every success return lies behind the scan of the records",
+		"the in-memory query can answer without scanning the records: a shortcut taken for the whole query list returns no matches although another alternative of the OR list matches — the head disagrees with the store path, which evaluates each alternative", w.fpos(f), w.renderPath(pth)...)
+}
+
+func ruleTagKeyTerminated(r *Run) {
+	w := r.W
+	f := w.fn("datatype/annotation", "NewTagTKey")
+	if f == nil || len(f.Blocks) == 0 {
+		r.undecided("annotation.NewTagTKey", "anchor not found")
+		return
+	}
+	n := 0
+	for _, c := range calls(f) {
+		callee := staticCallee(c)
+		if callee == nil || callee.Name() != "NewTKey" || len(c.Common().Args) != 2 {
+			continue
+		}
+		n++
+		terminated := false
+		for d := range dataDeps(c.Common().Args[1]) {
+			ap, ok := d.(*ssa.Call)
+			if !ok {
+				continue
+			}
+			bi, ok := ap.Call.Value.(*ssa.Builtin)
+			if !ok || bi.Name() != "append" || len(ap.Call.Args) != 2 {
+				continue
+			}
+			// the appended slice is a one-element array holding the constant 0
+			if sl, ok := ap.Call.Args[1].(*ssa.Slice); ok {
+				if al, ok := sl.X.(*ssa.Alloc); ok {
+					for _, ref := range *al.Referrers() {
+						if ia, ok := ref.(*ssa.IndexAddr); ok {
+							for _, ref2 := range *ia.Referrers() {
+								if st, ok := ref2.(*ssa.Store); ok {
+									if k, isK := constInt(st.Val); isK && k == 0 {
+										terminated = true
+									}
+								}
+							}
+						}
+					}
+				}
+			}
+		}
+		r.check(terminated, fmt.Sprintf("NewTagTKey:key#%d:terminated", n), "a zero byte is appended to the tag's bytes",
+			"the tag key is built from the tag's bytes without a terminating zero byte: the versions of a key are found by byte prefix, so tag/Syn returns the elements of tag Syn1 (and loses its own)", w.pos(c.Pos()))
+	}
+	r.check(n >= 1, "NewTagTKey:keys", fmt.Sprintf("%d", n), "none found: rule needs review", w.fpos(f))
+}
+
+func ruleRegionQueryTestsEveryElement(r *Run) {
+	w := r.W
+	top := w.method("datatype/annotation", "Data", "GetRegionSynapses")
+	if top == nil {
+		r.undecided("annotation.Data.GetRegionSynapses", "anchor not found")
+		return
+	}
+	n := 0
+	for _, f := range closureTree(top) {
+		var tests []*ssa.If
+		for _, b := range f.Blocks {
+			if ifi, ok := b.Instrs[len(b.Instrs)-1].(*ssa.If); ok {
+				for d := range dataDeps(ifi.Cond) {
+					if c, ok := d.(*ssa.Call); ok && methodNameOf(c) == "VoxelWithin" {
+						tests = append(tests, ifi)
+					}
+				}
+			}
+		}
+		for _, c := range calls(f) {
+			bi, ok := c.Common().Value.(*ssa.Builtin)
+			if !ok || bi.Name() != "append" {
+				continue
+			}
+			if !strings.Contains(c.Common().Args[0].Type().String(), "Element") {
+				continue
+			}
+			n++
+			ok2 := false
+			for _, t := range tests {
+				if guardedByEdge(t, 0, c) {
+					ok2 = true
+				}
+			}
+			r.check(ok2, fmt.Sprintf("%s:result-append#%d:behind-VoxelWithin", fname(f), n), "the element is appended behind the true edge of VoxelWithin",
+				"an element is appended to the region query's result without the test that it lies within the requested extents: elements of a block that only partly overlaps the region in y or z are returned although they are outside it", w.pos(c.Pos()))
+		}
+	}
+	r.check(n >= 1, "GetRegionSynapses:result-appends", fmt.Sprintf("%d", n), "none found: rule needs review", w.fpos(top))
+}
+
+func ruleCopyKeepsOwnIdentity(r *Run) {
+	w := r.W
+	n := 0
+	for _, f := range w.RepoFuncs {
+		if len(f.Blocks) == 0 || f.Name() != "CopyPropertiesFrom" || len(f.Params) == 0 || isTestFunc(w, f) || !strings.HasPrefix(relPkg(pkgPathOf(f)), "datatype/") {
+			continue
+		}
+		n++
+		bad := ""
+		for _, b := range f.Blocks {
+			for _, in := range b.Instrs {
+				st, ok := in.(*ssa.Store)
+				if !ok {
+					continue
+				}
+				fa, ok := st.Addr.(*ssa.FieldAddr)
+				if !ok || fa.X != ssa.Value(f.Params[0]) {
+					continue
+				}
+				// a pointer to another package's (or the base) Data
+				pt, ok := st.Val.Type().(*types.Pointer)
+				if !ok {
+					continue
+				}
+				if nm, ok := pt.Elem().(*types.Named); ok && nm.Obj().Name() == "Data" {
+					name, _, _ := fieldName(fa)
+					bad = "field " + name + " at " + w.pos(st.Pos())
+				}
+			}
+		}
+		r.check(bad == "", fname(f)+":keeps-its-own-instance", "no embedded instance pointer of the receiver is overwritten",
+			"the copy constructor stores an instance pointer into the receiver ("+bad+"): the copy shares its source's embedded instance — id, name and data UUID — and every key it builds is one of the source's keys", w.fpos(f))
+	}
+	r.check(n >= 5, "datatypes:copy-constructors", fmt.Sprintf("%d", n), "too few found: rule needs review", "-")
+}
+
+func ruleKeyParsersAgreeOnLength(r *Run) {
+	w := r.W
+	type g struct {
+		fn  string
+		min int64
+		pos string
+	}
+	var gs []g
+	for _, f := range w.RepoFuncs {
+		if len(f.Blocks) == 0 || relPkg(pkgPathOf(f)) != "storage" || isTestFunc(w, f) || !strings.HasSuffix(w.fposFile(f), "context.go") {
+			continue
+		}
+		for _, b := range f.Blocks {
+			ifi, ok := b.Instrs[len(b.Instrs)-1].(*ssa.If)
+			if !ok {
+				continue
+			}
+			bo, ok := ifi.Cond.(*ssa.BinOp)
+			if !ok || (bo.Op != token.LSS && bo.Op != token.LEQ) {
+				continue
+			}
+			c, ok := stripConv(bo.X).(*ssa.Call)
+			if !ok {
+				continue
+			}
+			bi, ok := c.Call.Value.(*ssa.Builtin)
+			if !ok || bi.Name() != "len" {
+				continue
+			}
+			if _, isParam := c.Call.Args[0].(*ssa.Parameter); !isParam {
+				continue
+			}
+			k, isK := constInt(bo.Y)
+			if !isK || k < 10 || k > 24 {
+				continue
+			}
+			// the true edge leaves with an error
+			leaves := false
+			for _, x := range b.Succs[0].Instrs {
+				if ret, isRet := x.(*ssa.Return); isRet && isErrorExit(ret) {
+					leaves = true
+				}
+			}
+			if !leaves {
+				continue
+			}
+			min := k
+			if bo.Op == token.LEQ {
+				min = k + 1
+			}
+			gs = append(gs, g{fname(f), min, w.pos(bo.Pos())})
+		}
+	}
+	if len(gs) < 3 {
+		r.check(false, "storage:data-key-length-guards", fmt.Sprintf("%d", len(gs)), "too few guards found: rule needs review", "-")
+		return
+	}
+	want := gs[0].min
+	for _, x := range gs {
+		if x.min < want {
+			want = x.min
+		}
+	}
+	for i, x := range gs {
+		r.check(x.min == want, fmt.Sprintf("%s:length-guard#%d", x.fn, i+1), fmt.Sprintf("accepts keys from %d bytes on, like its siblings", x.min),
+			fmt.Sprintf("this parser refuses data keys shorter than %d bytes while its siblings accept them from %d bytes on: keys whose type-specific part is a bare class (label counters, schemas, extents) are refused here, and the migrations that use this parser drop them", x.min, want), x.pos)
+	}
+}
+
+func ruleCountersNeverDecrease(r *Run) {
+	w := r.W
+	n := 0
+	for _, f := range w.RepoFuncs {
+		if len(f.Blocks) == 0 || relPkg(pkgPathOf(f)) != "datastore" || isTestFunc(w, f) {
+			continue
+		}
+		k := 0
+		for _, b := range f.Blocks {
+			for _, in := range b.Instrs {
+				st, ok := in.(*ssa.Store)
+				if !ok {
+					continue
+				}
+				fa, ok := st.Addr.(*ssa.FieldAddr)
+				if !ok || !strings.Contains(fa.X.Type().String(), "repoManager") {
+					continue
+				}
+				name, _, _ := fieldName(fa)
+				if name != "instanceID" && name != "repoID" && name != "versionID" {
+					continue
+				}
+				n++
+				k++
+				dec := false
+				for d := range dataDeps(st.Val) {
+					if bo, ok := d.(*ssa.BinOp); ok && bo.Op == token.SUB {
+						dec = true
+					}
+				}
+				r.check(!dec, fmt.Sprintf("%s:store-into-%s#%d:no-subtraction", fname(f), name, k), "the stored value is not computed by a subtraction",
+					"the identifier counter "+name+" is lowered: an id that is given back may not be the last one drawn — a concurrent creation already holds its successor, and the next creation is issued that successor again", w.pos(st.Pos()))
+			}
+		}
+	}
+	r.check(n >= 3, "datastore:counter-stores", fmt.Sprintf("%d", n), "too few found: rule needs review", "-")
+}
